@@ -23,6 +23,8 @@ import (
 	"slices"
 	"sort"
 	"strings"
+	"sync"
+	"sync/atomic"
 	"testing"
 	"time"
 
@@ -45,6 +47,7 @@ type dpCfg struct {
 	wRead     int
 	inCompute int  // percent of merges/persists with commits inside the compute step
 	bigTran   bool // one history with a transaction that reaches writeMax
+	longTran  bool // bursts of many writes by one update transaction
 }
 
 type dpRow struct {
@@ -62,7 +65,8 @@ type dpTran struct {
 	startView []map[uint64]dpRow // shadow: the committed rows when it started
 	first     map[string]string  // first result of every scan (repeatable reads)
 	wrote     []bool
-	stale     [][]dpRow // per table: row versions this transaction itself replaced or deleted
+	stale     [][]dpRow       // per table: row versions this transaction itself replaced or deleted
+	held      map[int]*dpHeld // iterators kept open across the transaction\'s own writes
 }
 
 type dpHist struct {
@@ -80,6 +84,8 @@ type dpHist struct {
 	failed     bool
 	soft       bool
 	nNoOff     int
+	forceRow   *dpRow // the next tranOp1 writes this row (of table forceTn)
+	forceTn    int
 	plainBuild bool // scripted history: index build without any generated extras
 	hid        int
 	log        []string // op lines of this history (for failure descriptions)
@@ -90,6 +96,15 @@ func dpRec(k, a, b string) core.Record {
 	rb.Add(core.SuStr(k))
 	rb.Add(core.SuStr(a))
 	rb.Add(core.SuStr(b))
+	return rb.Build()
+}
+
+// dpRecN builds a record of string fields
+func dpRecN(vals ...string) core.Record {
+	var rb core.RecordBuilder
+	for _, v := range vals {
+		rb.Add(core.SuStr(v))
+	}
 	return rb.Build()
 }
 
@@ -221,12 +236,20 @@ func (h *dpHist) randRow() (k, a, b string) {
 		k += "\x00x" // a key value with an embedded zero (escaped in composite keys)
 	}
 	a = fmt.Sprint("a", h.r.Intn(3))
+	if h.r.Intn(5) == 0 {
+		a = "" // partly (or, with b, entirely) empty values of the composite unique index
+	}
 	b = strings.Repeat("b", h.r.Intn(4))
 	return
 }
 
 // pick a row the transaction sees (from its shadow view)
 func (h *dpHist) pickRow(t *dpTran, tn int) (dpRow, bool) {
+	if h.forceRow != nil && tn == h.forceTn {
+		if row, ok := t.view[tn][h.forceRow.off]; ok {
+			return row, true
+		}
+	}
 	if len(t.view[tn]) == 0 {
 		return dpRow{}, false
 	}
@@ -270,12 +293,136 @@ func (h *dpHist) readRow(t *dpTran, tn int, row dpRow) bool {
 	return !t.dead
 }
 
-// tranOp performs one Output/Delete/Update on an open update transaction
+type dpHeld struct {
+	it   *index.OverIter
+	last string
+	has  bool
+}
+
+// tranOp performs one write on an open update transaction and then advances one of the index
+// iterators the transaction keeps open across its own writes
 func (h *dpHist) tranOp(t *dpTran) {
+	h.forceRow = nil
+	if t.ut != nil && !t.dead && len(t.held) > 0 && h.r.Intn(3) == 0 {
+		// write just AHEAD of an open iterator: the row the iterator will reach next (possibly one
+		// this transaction has already written) is updated or deleted before the iterator gets there
+		keys := make([]int, 0, len(t.held))
+		for k := range t.held {
+			keys = append(keys, k)
+		}
+		slices.Sort(keys)
+		hk := keys[h.r.Intn(len(keys))]
+		tn, i := hk/16, hk%16
+		hd := t.held[hk]
+		if ts := t.rt.meta.GetRoSchema(h.tables[tn]); ts != nil && i < len(ts.Indexes) && hd.has {
+			// any row AHEAD of the iterator (not only the very next one: the look-ahead of the
+			// transaction's own buffer is its next entry, however many other rows lie between),
+			// preferably one this transaction has already written
+			var ahead, own []dpRow
+			for o, row := range t.view[tn] {
+				if ts.Indexes[i].Ixspec.Key(OffToRec(h.db.Store, o)) > hd.last {
+					ahead = append(ahead, row)
+					if _, snap := t.startView[tn][o]; !snap {
+						own = append(own, row)
+					}
+				}
+			}
+			keyOf := func(r dpRow) string { return ts.Indexes[i].Ixspec.Key(OffToRec(h.db.Store, r.off)) }
+			sort.Slice(ahead, func(x, y int) bool { return keyOf(ahead[x]) < keyOf(ahead[y]) })
+			sort.Slice(own, func(x, y int) bool { return keyOf(own[x]) < keyOf(own[y]) })
+			var best *dpRow
+			if len(own) > 0 && h.r.Intn(3) != 0 {
+				// mostly the FIRST own entry ahead: that is where the sub-iterator over the
+				// transaction's own buffer is waiting
+				best = &own[0]
+				if h.r.Intn(4) == 0 {
+					best = &own[h.r.Intn(len(own))]
+				}
+			} else if len(ahead) > 0 {
+				best = &ahead[h.r.Intn(len(ahead))]
+			}
+			if best != nil {
+				h.forceRow, h.forceTn = best, tn
+				h.tr.Count("write ahead of an open iterator")
+			}
+		}
+	}
+	h.tranOp1(t)
+	h.forceRow = nil
+	if t.ut != nil && !t.dead && !h.failed && h.r.Intn(2) == 0 {
+		if msg := lib.Catch(func() { h.stepHeld(t) }); msg != "" {
+			h.fail("iter-panic", fmt.Sprintf("t%d: iterator kept open across its own writes: %s", t.id, msg))
+		}
+	}
+}
+
+// stepHeld: "an update transaction sees its own changes" through ITERATION: an iterator that was
+// opened earlier and is advanced after the transaction has written again (also to keys it had
+// already written) must yield exactly the next key of the transaction's current view, with the
+// current version of the row.
+func (h *dpHist) stepHeld(t *dpTran) {
+	tn := h.r.Intn(len(h.tables))
+	table := h.tables[tn]
+	ts := t.rt.meta.GetRoSchema(table)
+	ti := t.rt.meta.GetRoInfo(table)
+	if ts == nil || ti == nil || len(ts.Indexes) == 0 {
+		return
+	}
+	i := h.r.Intn(len(ts.Indexes))
+	if t.held == nil {
+		t.held = map[int]*dpHeld{}
+	}
+	hd := t.held[tn*16+i]
+	if hd == nil {
+		hd = &dpHeld{it: index.NewOverIter(table, i)}
+		t.held[tn*16+i] = hd
+	}
+	// expectation from the shadow view: the smallest key greater than the last one returned
+	var wantKey string
+	var wantOff uint64
+	for o := range t.view[tn] {
+		k := ts.Indexes[i].Ixspec.Key(OffToRec(h.db.Store, o))
+		if (!hd.has || k > hd.last) && (wantOff == 0 || k < wantKey) {
+			wantKey, wantOff = k, o
+		}
+	}
+	hd.it.Next(t.rt)
+	lastShown := "-"
+	if hd.has {
+		lastShown = lib.X(hd.last)
+	}
+	got := "-"
+	if !hd.it.Eof() {
+		k, o := hd.it.Cur()
+		got = fmt.Sprintf("%s:%d", lib.X(k), o)
+	}
+	h.q(fmt.Sprintf("next %d %d %d %s", t.id, tn, i, lastShown), got)
+	h.tr.Count("held-iterator step")
+	want := "-"
+	if wantOff != 0 {
+		want = fmt.Sprintf("%s:%d", lib.X(wantKey), wantOff)
+	}
+	if got != want {
+		h.fail("iter-stale", fmt.Sprintf("update transaction t%d, iterator on %s index %d (%v) opened before its later writes, positioned after %s: Next returned %s, the transaction's own view has %s next",
+			t.id, table, i, ts.Indexes[i].Columns, lastShown, got, want))
+		return
+	}
+	if hd.it.Eof() {
+		delete(t.held, tn*16+i)
+		return
+	}
+	hd.last, hd.has = wantKey, true
+}
+
+// tranOp1 performs one Output/Delete/Update on an open update transaction
+func (h *dpHist) tranOp1(t *dpTran) {
 	if t.ut == nil || t.dead {
 		return
 	}
 	tn := h.r.Intn(len(h.tables))
+	if h.forceRow != nil {
+		tn = h.forceTn
+	}
 	table := h.tables[tn]
 	ut := t.ut
 	ts := ut.getSchema(table)
@@ -318,6 +465,9 @@ func (h *dpHist) tranOp(t *dpTran) {
 		return
 	}
 	kind := h.r.Intn(10)
+	if h.forceRow != nil {
+		kind = 5 + h.r.Intn(5)
+	}
 	switch {
 	case kind < 5: // output
 		k, a, b := h.randRow()
@@ -857,7 +1007,11 @@ func (h *dpHist) build(tn int, midMerge bool) {
 		}
 		h.finish(t, true)
 	}
-	sch := &schema.Schema{Table: table, Indexes: []schema.Index{{Mode: 'i', Columns: cols}}}
+	mode := byte('i')
+	if cols[0] == "!u" {
+		mode, cols = 'u', cols[1:]
+	}
+	sch := &schema.Schema{Table: table, Indexes: []schema.Index{{Mode: mode, Columns: cols}}}
 	emitted := false
 	emitBuildc := func() {
 		// the state buildIndexes reads (single threaded: nothing runs in between)
@@ -889,6 +1043,33 @@ func (h *dpHist) build(tn int, midMerge bool) {
 		h.tr.Count("build:no-active-update-tran")
 	}
 	useEnsure := !h.plainBuild && h.r.Intn(2) == 0
+	// a unique index cannot be built over existing duplicates: the build must be refused and
+	// leave everything as it was (expectation from the committed rows, not from the build)
+	dupExpected := false
+	if mode == 'u' {
+		st := h.db.GetState()
+		ts := *st.Meta.GetRoSchema(table)
+		nold := len(ts.Indexes)
+		ts.Indexes = append(slices.Clone(ts.Indexes), sch.Indexes...)
+		spec := ts.SetupNewIndexes(nold)[0].Ixspec
+		seen := map[string]bool{}
+		for o := range h.live[tn] {
+			k := spec.Key(OffToRec(h.db.Store, o))
+			if seen[k] {
+				dupExpected = true
+				if os.Getenv("VERIF_DEBUG") != "" {
+					fmt.Printf("DEBUG dup key %q off %d fields %v %v\n", k, o, spec.Fields, spec.Fields2)
+					for o2 := range h.live[tn] {
+						fmt.Printf("DEBUG   live %d %q rec %v\n", o2, spec.Key(OffToRec(h.db.Store, o2)), OffToRec(h.db.Store, o2))
+					}
+				}
+			}
+			seen[k] = true
+		}
+	}
+	if dupExpected {
+		emitBuildc = func() { h.sweep() } // refused build: only the preempted transactions change
+	}
 	hook := &dpHook{Check: h.ck, added: func(string) { emitBuildc() },
 		between: func() {
 			if midMerge && h.pending[tn] > 0 {
@@ -922,8 +1103,24 @@ func (h *dpHist) build(tn int, midMerge bool) {
 		}
 	})
 	h.db.ck = h.ck
+	if dupExpected {
+		h.sweep()
+		h.tr.Count(fmt.Sprint("build unique over duplicates refused=", strings.Contains(msg, "duplicate value")))
+		if !strings.Contains(msg, "duplicate value") && os.Getenv("VERIF_DEBUG") != "" {
+			rt := h.db.NewReadTran()
+			ts := rt.meta.GetRoSchema(table)
+			for i := range ts.Indexes {
+				es, e := dpScan(rt, table, i, false)
+				fmt.Printf("DEBUG after build index %d %v mode %c: %s %s useEnsure=%v\n", i, ts.Indexes[i].Columns, ts.Indexes[i].Mode, dpShow(es), e, useEnsure)
+			}
+		}
+		if !strings.Contains(msg, "duplicate value") {
+			h.fail("unique-build-accepted-duplicates", fmt.Sprintf("create unique index %v on %s whose committed rows have duplicate values for it: result %q (must be refused)", cols, table, msg))
+		}
+		return
+	}
 	if msg != "" {
-		h.fail("build-panic", fmt.Sprintf("create index %v on %s: %s", cols, table, msg))
+		h.fail("build-panic", fmt.Sprintf("create index %c%v on %s: %s", mode, cols, table, msg))
 		return
 	}
 	if !emitted {
@@ -946,19 +1143,54 @@ func (h *dpHist) run() {
 		name := fmt.Sprint("t", i)
 		h.tables = append(h.tables, name)
 		idxs := []schema.Index{{Mode: 'k', Columns: []string{"k"}}, {Mode: 'i', Columns: []string{"a"}}}
-		if h.r.Intn(3) == 0 {
+		switch h.r.Intn(4) {
+		case 0:
 			idxs = idxs[:1]
+		case 1:
+			// a composite unique index: equal values are duplicates unless ALL columns are empty
+			idxs = append(idxs, schema.Index{Mode: 'u', Columns: []string{"a", "b"}})
 		}
 		h.db.Create(&schema.Schema{Table: name, Columns: []string{"k", "a", "b"}, Indexes: idxs})
 		h.q(fmt.Sprintf("table %d", len(idxs)), "ok")
 		h.live = append(h.live, map[uint64]dpRow{})
 		h.pending = append(h.pending, 0)
-		h.newIdx = append(h.newIdx, [][]string{{"b"}, {"b", "a"}, {"a", "b"}})
+		// candidate new indexes; "!u" = unique (refused when the existing rows have duplicates)
+		cands := [][]string{{"b"}, {"!u", "b", "a"}, {"a", "b"}, {"!u", "a", "k"}}
+		h.r.Shuffle(len(cands), func(i, j int) { cands[i], cands[j] = cands[j], cands[i] })
+		if len(idxs) == 3 { // already has unique(a,b)
+			cands = slices.DeleteFunc(cands, func(c []string) bool { return slices.Equal(c, []string{"a", "b"}) })
+		}
+		h.newIdx = append(h.newIdx, cands)
 	}
 	c := h.cfg
 	total := c.wMerge + c.wPersist + c.wBuild + c.wTranOp + c.wBegin + c.wRead
 	for step := 0; step < c.steps && !h.failed; step++ {
 		x := h.r.Intn(total)
+		if c.longTran && h.r.Intn(5) == 0 {
+			// a long update transaction: many writes in a row (also to rows it has already
+			// written, also just ahead of the iterators it keeps open), re-read as it goes
+			var t *dpTran
+			for _, t2 := range h.trans {
+				if t2.ut != nil && !t2.dead {
+					t = t2
+				}
+			}
+			if t == nil && len(h.trans) < 5 {
+				h.begin(true)
+				t = h.trans[len(h.trans)-1]
+			}
+			for j := 0; t != nil && j < 12 && !t.dead && !h.failed; j++ {
+				h.tranOp(t)
+				if j%4 == 3 && !t.dead && !h.failed {
+					h.readAll(fmt.Sprint(t.id), t.rt, t.view, t)
+				}
+			}
+			h.tr.Count("long-transaction burst")
+			if !h.failed {
+				h.observe()
+			}
+			continue
+		}
 		switch {
 		case x < c.wMerge:
 			tn := h.r.Intn(len(h.tables))
@@ -1239,7 +1471,7 @@ func TestVerifC16(t *testing.T) {
 
 // C02: many long-lived read and update transactions re-read after every step
 func TestVerifC02(t *testing.T) {
-	dpMain(t, dpCfg{name: "c02", steps: 40, wMerge: 3, wPersist: 2, wBuild: 0, wTranOp: 6, wBegin: 3, wRead: 4, inCompute: 50})
+	dpMain(t, dpCfg{name: "c02", steps: 40, wMerge: 3, wPersist: 2, wBuild: 0, wTranOp: 6, wBegin: 3, wRead: 4, inCompute: 50, longTran: true})
 }
 
 //-------------------------------------------------------------------
@@ -1344,5 +1576,429 @@ func TestVerifC03Async(t *testing.T) {
 			tr.Fail("impl-panic", fmt.Sprintf("async commit %d: %s", i, msg))
 			break
 		}
+	}
+}
+
+//-------------------------------------------------------------------
+// C06, foreign key cascades (model free): the rows a cascade rewrites go through the same
+// index maintenance as direct writes; after every operation, inside the transaction and after
+// commit, all indexes of every table must hold exactly the same rows under their own keys.
+
+func fkAgree(tr *lib.Trace, rt *ReadTran, where string, hist func() string) bool {
+	ok := true
+	fail := func(sig, msg string) {
+		if ok {
+			tr.Fail(sig, fmt.Sprintf("seed %d %s: %s | ops: %s", lib.Seed(), where, msg, hist()))
+		}
+		ok = false
+	}
+	for _, ts := range rt.GetAllSchema() {
+		ti := rt.GetInfo(ts.Table)
+		if ti == nil {
+			continue
+		}
+		var first []uint64
+		for i := range ts.Indexes {
+			es, e := dpScan(rt, ts.Table, i, false)
+			if e != "" {
+				fail("scan-panic", fmt.Sprintf("%s index %d: %s", ts.Table, i, e))
+				return false
+			}
+			offs := make([]uint64, 0, len(es))
+			for j, en := range es {
+				offs = append(offs, en.off)
+				if k := ts.Indexes[i].Ixspec.Key(rt.GetRecord(en.off)); k != en.key {
+					fail("index-wrong-key", fmt.Sprintf("%s index %d (%v): entry %q -> row %v whose key is %q", ts.Table, i, ts.Indexes[i].Columns, en.key, rt.GetRecord(en.off), k))
+				}
+				if j > 0 && es[j-1].key >= en.key {
+					fail("scan-order", fmt.Sprintf("%s index %d not ascending", ts.Table, i))
+				}
+			}
+			slices.Sort(offs)
+			if i == 0 {
+				first = offs
+				if ti.Nrows != len(offs) {
+					fail("info-nrows", fmt.Sprintf("%s Nrows %d, index 0 yields %d rows", ts.Table, ti.Nrows, len(offs)))
+				}
+			} else if !slices.Equal(offs, first) {
+				rows := func(os []uint64) string {
+					var sb strings.Builder
+					for _, o := range os {
+						fmt.Fprintf(&sb, "%d%v ", o, rt.GetRecord(o))
+					}
+					return sb.String()
+				}
+				fail("index-disagrees", fmt.Sprintf("%s: index 0 (%v) yields %s but index %d (%v) yields %s",
+					ts.Table, ts.Indexes[0].Columns, rows(first), i, ts.Indexes[i].Columns, rows(offs)))
+			}
+		}
+	}
+	return ok
+}
+
+func TestVerifC06Fk(t *testing.T) {
+	MakeSuTran = func(ut *UpdateTran) *core.SuTran { return core.NewSuTran(nil, true) }
+	checkerAbortT1 = true
+	tr := lib.Open()
+	defer tr.Close()
+	n := lib.N(60)
+	vals := []string{"1", "2", "3"}
+	for hi := 0; hi < n; hi++ {
+		r := rand.New(rand.NewSource(lib.Seed()*1000003 + int64(hi)))
+		var log []string
+		hist := func() string { return strings.Join(log, "; ") }
+		note := func(f string, a ...any) { log = append(log, fmt.Sprintf(f, a...)) }
+		msg := lib.Catch(func() {
+			db := CreateDb(stor.HeapStor(64 * 1024))
+			db.CheckerSync()
+			mode := []byte{schema.Block, schema.CascadeUpdates, schema.Cascade, schema.CascadeUpdates}[r.Intn(4)]
+			db.Create(&schema.Schema{Table: "hdr", Columns: []string{"a", "b", "x"},
+				Indexes: []schema.Index{{Mode: 'k', Columns: []string{"a", "b"}}}})
+			lin := []schema.Index{{Mode: 'k', Columns: []string{"d"}}}
+			// a second key / unique index that contains some of the foreign key columns
+			switch r.Intn(3) {
+			case 0:
+				lin = append(lin, schema.Index{Mode: 'k', Columns: []string{"b", "c"}})
+			case 1:
+				lin = append(lin, schema.Index{Mode: 'u', Columns: []string{"b", "c"}})
+			}
+			lin = append(lin, schema.Index{Mode: 'i', Columns: []string{"a", "b"},
+				Fk: schema.Fkey{Table: "hdr", Columns: []string{"a", "b"}, Mode: mode}})
+			db.Create(&schema.Schema{Table: "lin", Columns: []string{"d", "a", "b", "c"}, Indexes: lin})
+			note("hdr key(a,b); lin %d indexes, fk mode %d", len(lin), mode)
+			tr.Count(fmt.Sprint("fk family mode=", mode, " lin indexes=", len(lin)))
+			nd := 0
+			var ut *UpdateTran
+			pick := func(table string) (core.Record, uint64, bool) {
+				es, _ := dpScan(&ut.ReadTran, table, 0, false)
+				if len(es) == 0 {
+					return "", 0, false
+				}
+				e := es[r.Intn(len(es))]
+				var dr *core.DbRec
+				if lib.Catch(func() { dr = ut.Lookup(table, 0, e.key) }) != "" || dr == nil {
+					return "", 0, false
+				}
+				return dr.Record, dr.Off, true
+			}
+			for step := 0; step < 40; step++ {
+				if ut == nil {
+					ut = db.NewUpdateTran()
+					note("begin")
+				}
+				var res string
+				switch x := r.Intn(10); {
+				case x < 2:
+					a, b := vals[r.Intn(3)], vals[r.Intn(3)]
+					res = lib.Catch(func() { ut.Output(nil, "hdr", dpRecN(a, b, "x")) })
+					note("out hdr(%s,%s) %q", a, b, res)
+				case x < 5:
+					nd++
+					a, b := vals[r.Intn(3)], vals[r.Intn(3)]
+					if hr, _, ok := pick("hdr"); ok && r.Intn(4) != 0 {
+						a, b = hr.GetStr(0), hr.GetStr(1)
+					}
+					c := []string{"8", "9"}[r.Intn(2)]
+					res = lib.Catch(func() { ut.Output(nil, "lin", dpRecN(fmt.Sprint("d", nd), a, b, c)) })
+					note("out lin(d%d,%s,%s,%s) %q", nd, a, b, c, res)
+				case x < 8: // update a parent key: cascades into the children
+					if hr, off, ok := pick("hdr"); ok {
+						a, b := hr.GetStr(0), hr.GetStr(1)
+						if r.Intn(2) == 0 {
+							a = vals[r.Intn(3)]
+						} else {
+							b = vals[r.Intn(3)]
+						}
+						res = lib.Catch(func() { ut.Update(nil, "hdr", off, dpRecN(a, b, hr.GetStr(2)+"'")) })
+						note("upd hdr(%s,%s)->(%s,%s) %q", hr.GetStr(0), hr.GetStr(1), a, b, res)
+					}
+				case x < 9:
+					if lr, off, ok := pick("lin"); ok {
+						c := []string{"8", "9"}[r.Intn(2)]
+						res = lib.Catch(func() { ut.Update(nil, "lin", off, dpRecN(lr.GetStr(0), lr.GetStr(1), lr.GetStr(2), c)) })
+						note("upd lin %s c->%s %q", lr.GetStr(0), c, res)
+					}
+				default:
+					tbl := []string{"hdr", "lin"}[r.Intn(2)]
+					if rec, off, ok := pick(tbl); ok {
+						res = lib.Catch(func() { ut.Delete(nil, tbl, off) })
+						note("del %s %v %q", tbl, rec, res)
+					}
+				}
+				tr.Count("fk op " + map[bool]string{true: "ok", false: "refused"}[res == ""])
+				if ut.ct.failure.Load() != "" {
+					ut = nil // aborted by the implementation
+					note("(aborted)")
+					continue
+				}
+				// inside the transaction
+				if !fkAgree(tr, &ut.ReadTran, fmt.Sprintf("fk history %d step %d (inside the transaction)", hi, step), hist) {
+					return
+				}
+				if r.Intn(4) == 0 {
+					if lib.Catch(func() { db.CommitMerge(ut) }) != "" {
+						ut.Abort()
+					}
+					note("commit")
+					ut = nil
+					if !fkAgree(tr, db.NewReadTran(), fmt.Sprintf("fk history %d step %d (committed state)", hi, step), hist) {
+						return
+					}
+				}
+			}
+		})
+		if msg != "" {
+			tr.Fail("impl-panic", fmt.Sprintf("fk history %d: %s | ops: %s", hi, msg, hist()))
+		}
+	}
+}
+
+//-------------------------------------------------------------------
+// C16, the real pipeline: clean shutdown + reopen, forced persists under load
+
+// TestVerifC16Async (direct oracles only):
+//
+//	(a) StartConcur, commits of every kind — also ones that append nothing to the file after the
+//	    last persist (delete-only transactions, drop, rename) — Close, reopen from the same
+//	    storage: tables and rows must be exactly the committed ones, Check(full) must pass;
+//	    several open/close cycles per history.
+//	(b) Database.Persist() ("returns a persisted state with all ixbuf layers merged") while
+//	    writer goroutines commit: the returned state must have everything merged and check clean.
+//	    Scheduling decides only how often a wrong implementation is caught.
+func TestVerifC16Async(t *testing.T) {
+	MakeSuTran = func(ut *UpdateTran) *core.SuTran { return core.NewSuTran(nil, true) }
+	tr := lib.Open()
+	defer tr.Close()
+	n := lib.N(30)
+	for hi := 0; hi < n; hi++ {
+		r := rand.New(rand.NewSource(lib.Seed()*1000003 + int64(hi)))
+		var log []string
+		note := func(f string, a ...any) { log = append(log, fmt.Sprintf(f, a...)) }
+		fail := func(sig, msg string) {
+			tr.Fail(sig, fmt.Sprintf("seed %d close/reopen history %d: %s | ops: %s", lib.Seed(), hi, msg, strings.Join(log, "; ")))
+		}
+		msg := lib.Catch(func() {
+			st := stor.HeapStor(64 * 1024)
+			db := CreateDb(st)
+			StartConcur(db, time.Hour)             // no periodic persist
+			rows := map[string]map[string]string{} // table -> k -> a
+			names := []string{"ta", "tb", "tc", "td"}
+			create := func(name string) {
+				db.Create(&schema.Schema{Table: name, Columns: []string{"k", "a"},
+					Indexes: []schema.Index{{Mode: 'k', Columns: []string{"k"}}, {Mode: 'i', Columns: []string{"a"}}}})
+				rows[name] = map[string]string{}
+				note("create %s", name)
+			}
+			create("ta")
+			create("tb")
+			nk := 0
+			anyTable := func() string {
+				var ts []string
+				for tname := range rows {
+					ts = append(ts, tname)
+				}
+				sort.Strings(ts)
+				if len(ts) == 0 {
+					return ""
+				}
+				return ts[r.Intn(len(ts))]
+			}
+			op := func(kind int) {
+				tname := anyTable()
+				switch kind {
+				case 0: // appending commit
+					if tname == "" {
+						return
+					}
+					ut := db.NewUpdateTran()
+					nk++
+					k, a := fmt.Sprintf("k%03d", nk), fmt.Sprint("a", r.Intn(3))
+					ut.Output(nil, tname, dpRecN(k, a))
+					if res := ut.Complete(); res == "" {
+						rows[tname][k] = a
+					}
+					note("insert %s %s", tname, k)
+				case 1: // delete-only commit (appends nothing)
+					if tname == "" || len(rows[tname]) == 0 {
+						return
+					}
+					var ks []string
+					for k := range rows[tname] {
+						ks = append(ks, k)
+					}
+					sort.Strings(ks)
+					k := ks[r.Intn(len(ks))]
+					ut := db.NewUpdateTran()
+					ts := ut.getSchema(tname)
+					dr := ut.Lookup(tname, 0, ts.Indexes[0].Ixspec.Key(dpRecN(k, "")))
+					if dr == nil {
+						fail("committed-row-missing", fmt.Sprintf("%s row %s not found", tname, k))
+						return
+					}
+					ut.Delete(nil, tname, dr.Off)
+					if res := ut.Complete(); res == "" {
+						delete(rows[tname], k)
+					}
+					note("delete %s %s", tname, k)
+				case 2: // drop
+					if tname == "" || len(rows) < 2 {
+						return
+					}
+					if err := db.Drop(tname); err == nil {
+						delete(rows, tname)
+						note("drop %s", tname)
+					}
+				case 3: // rename
+					if tname == "" {
+						return
+					}
+					for _, to := range names {
+						if _, used := rows[to]; !used {
+							if db.RenameTable(tname, to) {
+								rows[to] = rows[tname]
+								delete(rows, tname)
+								note("rename %s to %s", tname, to)
+							}
+							break
+						}
+					}
+				case 4:
+					for _, nm := range names {
+						if _, used := rows[nm]; !used {
+							create(nm)
+							break
+						}
+					}
+				case 5:
+					db.Persist()
+					note("persist")
+				}
+			}
+			for cycle := 0; cycle < 3; cycle++ {
+				for i := 3 + r.Intn(6); i > 0; i-- {
+					op([]int{0, 0, 0, 1, 1, 2, 3, 4, 5}[r.Intn(9)])
+				}
+				if r.Intn(3) != 0 {
+					op(5) // "the once a minute persist" …
+				}
+				// … followed only by a few commits, mostly ones that append nothing
+				for i := r.Intn(3); i > 0; i-- {
+					op([]int{1, 1, 2, 3, 0}[r.Intn(5)])
+				}
+				db.Close()
+				note("close")
+				var err error
+				db, err = OpenDbStor(st, stor.Update, true)
+				if err != nil {
+					fail("reopen-failed", fmt.Sprint("OpenDbStor after a clean Close: ", err))
+					return
+				}
+				note("reopen")
+				tr.Count("close+reopen")
+				rt := db.NewReadTran()
+				var got []string
+				for _, ts := range rt.GetAllSchema() {
+					got = append(got, ts.Table)
+				}
+				sort.Strings(got)
+				var want []string
+				for tname := range rows {
+					want = append(want, tname)
+				}
+				sort.Strings(want)
+				if !slices.Equal(got, want) {
+					fail("close-reopen-lost-commit", fmt.Sprintf("tables after reopen %v, committed %v", got, want))
+					return
+				}
+				for _, tname := range want {
+					ts := rt.getSchema(tname)
+					for i := range ts.Indexes {
+						es, e := dpScan(rt, tname, i, false)
+						var ks []string
+						for _, en := range es {
+							ks = append(ks, rt.GetRecord(en.off).GetStr(0))
+						}
+						sort.Strings(ks)
+						var wk []string
+						for k := range rows[tname] {
+							wk = append(wk, k)
+						}
+						sort.Strings(wk)
+						if e != "" || !slices.Equal(ks, wk) {
+							fail("close-reopen-lost-commit", fmt.Sprintf("%s index %d after a clean Close and reopen holds rows %v %s, committed rows are %v", tname, i, ks, e, wk))
+							return
+						}
+					}
+					if ti := rt.GetInfo(tname); ti.Nrows != len(rows[tname]) {
+						fail("info-nrows", fmt.Sprintf("%s Nrows %d after reopen, committed rows %d", tname, ti.Nrows, len(rows[tname])))
+						return
+					}
+				}
+				var ec *errCorrupt
+				if m := lib.Catch(func() { ec = checkState(db.GetState(), checkTableFull, "", nil) }); m != "" || ec != nil {
+					fail("dbcheck", fmt.Sprintf("full check after reopen: %v %s", ec, m))
+					return
+				}
+				StartConcur(db, time.Hour)
+			}
+			db.Close()
+		})
+		if msg != "" {
+			fail("impl-panic", msg)
+		}
+	}
+
+	// (b) forced persists while transactions commit
+	msg := lib.Catch(func() {
+		db := CreateDb(stor.HeapStor(64 * 1024))
+		StartConcur(db, time.Hour)
+		defer db.Close()
+		const ntables = 4
+		for i := 0; i < ntables; i++ {
+			db.Create(&schema.Schema{Table: fmt.Sprint("w", i), Columns: []string{"k", "a"},
+				Indexes: []schema.Index{{Mode: 'k', Columns: []string{"k"}}, {Mode: 'i', Columns: []string{"a"}}}})
+		}
+		var stop atomic.Bool
+		var next, ncommits atomic.Int64
+		var wg sync.WaitGroup
+		for w := 0; w < 4; w++ {
+			wg.Add(1)
+			go func() {
+				defer wg.Done()
+				for !stop.Load() && !db.IsCorrupted() {
+					lib.Catch(func() {
+						ut := db.NewUpdateTran()
+						if ut == nil {
+							return
+						}
+						k := next.Add(1)
+						ut.Output(nil, fmt.Sprint("w", k%ntables), dpRecN(fmt.Sprintf("k%07d", k), fmt.Sprint("a", w)))
+						if ut.Complete() == "" {
+							ncommits.Add(1)
+						}
+					})
+				}
+			}()
+		}
+		rounds := 60 * n / 30
+		for i := 0; i < rounds; i++ {
+			state := db.Persist()
+			if m := lib.Catch(func() { state.Meta.CheckAllMerged() }); m != "" {
+				tr.Fail("forced-persist-unmerged", fmt.Sprintf("Database.Persist() call %d (4 goroutines committing meanwhile, %d commits so far) returned a state with unmerged/unsaved changes: %s", i, ncommits.Load(), m))
+				break
+			}
+			var ec *errCorrupt
+			if m := lib.Catch(func() { ec = checkState(state, checkTable, "", nil) }); m != "" || ec != nil {
+				tr.Fail("forced-persist-unmerged", fmt.Sprintf("Database.Persist() call %d: check of the returned state of a healthy database: %v %s", i, ec, m))
+				break
+			}
+		}
+		stop.Store(true)
+		wg.Wait()
+		tr.CountN("forced persists under load", rounds)
+		tr.Count(fmt.Sprint("commits during forced persists >= 100: ", ncommits.Load() >= 100))
+	})
+	if msg != "" {
+		tr.Fail("impl-panic", "forced persist under load: "+msg)
 	}
 }
